@@ -86,6 +86,9 @@ def classify_open(path):
         return ("u", str(e))
     except OSError as e:
         return ("o", str(e))
+    except ValueError as e:
+        # open() rejects the name itself (embedded NUL); not an OSError, not a UnicodeError
+        return ("v", str(e))
     except Exception as e:  # noqa: BLE001
         return ("x", type(e).__name__)
 
@@ -137,11 +140,11 @@ def tie_findread(chk, r, n):
         except Exception as e:  # noqa: BLE001
             want = "raised " + type(e).__name__
             # spec (property statement): a file that cannot be opened/decoded is reported, not raised
-            spec_ok = not all(k in "tou" for _, (k, _v) in probes)
+            spec_ok = not all(k in "touv" for _, (k, _v) in probes)
         line = "FINDREAD " + ("|".join("%s=%s:%s" % (base.enc(d), k, base.enc(v)) for d, (k, v) in probes) or "-")
         t.add(line, want, {"layout": {"name": name, "states": states}, "observed": want[:300],
                            "expected": "the text of the first import directory where the file can be read, or "
-                                       "(None, one detail per directory + import path); no exception for OSError/UnicodeError"},
+                                       "(None, one detail per directory + import path); no exception for OSError/ValueError (incl. UnicodeError)"},
               spec_ok)
         chk.nontrivial("findread:" + ",".join(k for _, (k, _v) in probes) + want[:8])
         if want.startswith("notfound"):
